@@ -104,6 +104,10 @@ func GenSFHostile(r *rand.Rand, seq, subID uint32, maxSize int) *SFDatagram {
 		s := &d.Samples[i]
 		for j := range s.Records {
 			rec := &s.Records[j]
+			if rec.Raw != nil && !rec.Raw.IPv6 && r.Intn(3) == 0 {
+				// IPv4 options: any header length, possibly captured only in part
+				rec.Raw.IHL = uint8(r.Intn(16))
+			}
 			switch {
 			case rec.Raw != nil && r.Intn(2) == 0:
 				n := len(rec.Raw.Bytes())
